@@ -544,6 +544,8 @@ structure Statement : Prop where
     carveBH ms x = setFirstLower (ms.filter fun b => Generated.carve_BH_mask b.1 b.2 x) x ∧
     carveNS ms (14e-1 : ℝ) = (ms.filter fun b => Generated.carve_NS_mask b.1 b.2) ∧
     Generated.carve_WD_edge_is_WDmax x = 1 ∧ Generated.carve_BH_edge_is_BHmin x = 1
+  /-- an integer bin count is split over the binning breaks' own number of segments -/
+  source_nseg : ∀ x : ℝ, Generated.bins_nseg_is_breaks_minus_one x = 1
   source_lookup : ∀ (l u m : ℝ) (t : List (Bin ℝ)) (i : Nat) (acc : Option Nat),
     lastLowerLe ((l, u) :: t) m i acc = lastLowerLe t m (i + 1) (if Generated.lookup_le l m then some i else acc) ∧
     Generated.lookup_over u m = Scalar.le u m ∧ Generated.lookup_last_bin_test m = 1
@@ -582,6 +584,7 @@ structure Statement : Prop where
     exactly one NS bin, WD bins tile up to the maximum WD mass. BH bins tile from the minimum BH mass. Not proved in Lean: where the IFMR bounds come from (C09). -/
 theorem C13_partial : Statement where
   source_carve := fun ms x => ⟨Bridge.gen_carveWD ms x, Bridge.gen_carveBH ms x, Bridge.gen_carveNS ms, (Bridge.gen_carve_edges x).1, (Bridge.gen_carve_edges x).2⟩
+  source_nseg := Bridge.gen_nseg
   source_lookup := fun l u m t i acc => ⟨Bridge.gen_lastLowerLe_cons l u m t i acc, Bridge.gen_lookup_over u m, Bridge.gen_lookup_last m⟩
   divide := fun N k hk => ⟨divide_length N k hk, divide_sum N k hk⟩
   linear := fun lo hi n h => ⟨linspace_length lo hi n, linspace_strict lo hi n h, linspace_getLast lo hi n,
